@@ -17,19 +17,23 @@ VARIABLE i
 \* fin3 / fin0 say that the value was finite and fitted 31 bits (TLC cannot type-test a string).
 NormScale == 1000
 NormCap   == 2000000
-ValueBound == 2           \* |entry| of every input array
+ValueBound == 4           \* |entry| of every input array (integers in -2..2; numerators of half-integers in -4..4)
 
-RunFields == {"rejected", "raised", "convert", "exact", "dense", "unf", "vec", "shape", "rank", "norm"}
+RunFields == {"rejected", "raised", "convert", "exact", "dtype", "dense2", "dense", "unf", "vec", "shape", "rank", "norm"}
 IsLoggedT(T) == /\ {"shape", "data"} \subseteq DOMAIN T
 TensOKs(ts) == \A k \in 1..Len(ts) : IsLoggedT(ts[k]) /\ IsTAny(ts[k])
 Bounded(T) == \A n \in 1..Len(T.data) : T.data[n] \in (-ValueBound)..ValueBound
 
 WellFormed(e) ==
     /\ {"id", "cfg", "in", "runs"} \subseteq DOMAIN e
-    /\ {"op", "fshapes", "wlen", "coreshape", "pshapes", "hasw", "pden", "bad", "skip", "tr", "modes"} \subseteq DOMAIN e.cfg
+    /\ {"op", "fshapes", "wlen", "coreshape", "pshapes", "hasw", "pden", "bad", "skip", "tr", "modes", "mix", "dens", "cden", "imk", "outdtype"} \subseteq DOMAIN e.cfg
     /\ e.cfg.op \in Kinds
     /\ e.cfg.tr \in BOOLEAN /\ e.cfg.skip \in -1..8 /\ \A j \in 1..Len(e.cfg.modes) : e.cfg.modes[j] \in 0..8
     /\ (HasOpt(e.cfg) => e.cfg.op = "tucker" /\ e.cfg.bad = "none")       \* view options exist for Tucker only
+    /\ e.cfg.imk \in 0..Len(e.in.fs)
+    /\ (e.cfg.imk > 0 => /\ "im" \in DOMAIN e.in /\ IsLoggedT(e.in.im) /\ IsTAny(e.in.im) /\ Bounded(e.in.im)
+                         /\ e.in.im.shape = e.in.fs[e.cfg.imk].shape)
+    /\ (e.cfg.mix # "none" => e.cfg.bad = "none" /\ ~HasOpt(e.cfg))
     /\ "fs" \in DOMAIN e.in /\ TensOKs(e.in.fs) /\ \A k \in 1..Len(e.in.fs) : Bounded(e.in.fs[k])
     /\ (e.cfg.op \in {"cp", "p2"} =>
             /\ {"hasw", "w"} \subseteq DOMAIN e.in /\ e.in.hasw \in BOOLEAN
@@ -78,34 +82,47 @@ Verdict(e) ==
     \* ONE dense tensor per event -- under Tucker view options the option-dependent one; every logged view
     \* (dense, each unfolding, vec) must be the corresponding view of it.  tucker_to_unfolded / _vec have no
     \* `modes` argument, and shape / rank / norm are reported for the plain factorised tensor only.
+    \* Mixed storage types: the logged arrays are integer numerators (results multiplied by PROD dens * cden by the
+    \* harness); a complex part a + ib contributes Dense(a) + i Dense(b) (MixAdditive / MixHomogeneous in Factorized).
     LET D  == IF opt THEN TuckerDenseOpt(in, c.skip, c.tr, c.modes) ELSE Dense(kd, in)
+        cplx == c.imk > 0
+        inI  == [in EXCEPT !.fs[c.imk] = in.im]          \* only used when cplx
+        DI   == Dense(kd, inI)
         needviews == c.modes = <<>>
         needmeta  == ~opt
+        neednorm  == ~opt /\ c.mix = "none"
         N  == Len(D.shape)
         n2 == Norm2(D)
+        \* logged tensor x against the exact tensor (real part Tre, imaginary part Tim)
+        CV(x, Tre, Tim) == /\ IsLoggedT(x) /\ SameT(x, Tre)
+                           /\ (cplx => "im" \in DOMAIN x /\ x.im = Tim.data)
         UnfOK(r) == /\ Len(r.unf) = N
-                    /\ \A m \in 0..(N - 1) : IsLoggedT(r.unf[m + 1]) /\ SameT(r.unf[m + 1], Unfold(D, m))
-        NormOK(r) == \/ ~r.norm.has
+                    /\ \A m \in 0..(N - 1) : CV(r.unf[m + 1], Unfold(D, m), Unfold(DI, m))
+        NormOK(r) == \/ ~r.norm.has \/ ~neednorm
                      \/ IF n2 <= NormCap THEN r.norm.fin3 /\ r.norm.q3 = NormScale * n2
                                          ELSE r.norm.fin0 /\ r.norm.q0 = n2
         SlicesOK(sl) == /\ Len(sl) = Len(in.ps)
-                        /\ \A s \in 1..Len(sl) : IsLoggedT(sl[s]) /\ SameT(sl[s], P2Slice(in, s))
+                        /\ \A s \in 1..Len(sl) : CV(sl[s], P2Slice(in, s), P2Slice(inI, s))
         Clause(r) ==
             IF r.rejected THEN "ValidRejected"
             ELSE IF r.raised THEN "Raised"
             ELSE IF ~r.exact THEN "Exact"
             ELSE IF ~IsLoggedT(r.dense) \/ r.dense.shape # D.shape THEN "DenseShape"
-            ELSE IF r.dense.data # D.data THEN "Dense"
+            ELSE IF ~CV(r.dense, D, DI) THEN "Dense"
+            ELSE IF c.mix # "none" /\ r.dtype # c.outdtype THEN "Dtype"          \* the promoted type of the stored parts
             ELSE IF needviews /\ ~UnfOK(r) THEN "Unfolded"
-            ELSE IF needviews /\ (~IsLoggedT(r.vec) \/ ~SameT(r.vec, Vec(D))) THEN "Vec"
-            ELSE IF kd = "cp" /\ (~IsLoggedT(r.masked) \/ ~SameT(r.masked, Hadamard(D, in.mask))) THEN "Masked"
-            ELSE IF kd = "ttm" /\ (~IsLoggedT(r.matrix) \/ ~SameT(r.matrix, TTMMatrix(in))) THEN "Matrix"
+            ELSE IF needviews /\ ~CV(r.vec, Vec(D), Vec(DI)) THEN "Vec"
+            ELSE IF kd = "cp" /\ ~CV(r.masked, Hadamard(D, in.mask), Hadamard(DI, in.mask)) THEN "Masked"
+            ELSE IF kd = "ttm" /\ ~CV(r.matrix, TTMMatrix(in), TTMMatrix(inI)) THEN "Matrix"
             ELSE IF kd = "p2" /\ ~SlicesOK(r.slices) THEN "Slices"
             ELSE IF kd = "p2" /\ ~SlicesOK(r.slice1) THEN "Slice"
             ELSE IF kd = "p2" /\ (~SlicesOK(r.slices_nv) \/ ~SlicesOK(r.slice1_nv)) THEN "SliceNoValidate"
+            \* the dense conversion repeated AFTER all other views (on the same object in the *_seq runs): the
+            \* stored factors must not have been changed by the conversions in between
+            ELSE IF ~CV(r.dense2, D, DI) THEN "DenseAgain"
             ELSE IF needmeta /\ r.shape # ShapeOf(kd, in) THEN "Shape"
             ELSE IF needmeta /\ r.rank # RankOf(kd, in) THEN "Rank"
-            ELSE IF needmeta /\ ~NormOK(r) THEN "Norm"
+            ELSE IF ~NormOK(r) THEN "Norm"
             ELSE "ok"
         \* The runs of one event usually return identical views: the first run is compared with the
         \* specification, a run whose logged views are identical to an accepted run's is accepted
@@ -115,6 +132,7 @@ Verdict(e) ==
         SameViews(r, s) ==
             /\ r.rejected = s.rejected /\ r.raised = s.raised /\ r.exact = s.exact
             /\ r.dense = s.dense /\ r.unf = s.unf /\ r.vec = s.vec /\ r.shape = s.shape /\ r.rank = s.rank
+            /\ r.dtype = s.dtype /\ r.dense2 = s.dense2
             /\ (kd = "cp" => r.masked = s.masked) /\ (kd = "ttm" => r.matrix = s.matrix)
             /\ (kd = "p2" => r.slices = s.slices /\ r.slice1 = s.slice1 /\ r.slices_nv = s.slices_nv /\ r.slice1_nv = s.slice1_nv)
         ClauseOf(k) == IF k = k0 THEN c0
